@@ -801,6 +801,23 @@ func Run(cfg *hx.Config) error {
 		}
 		return nil
 	}
-	generate(cfg, emit)
+	// generate everything first, then emit every third case starting at 0, 1, 2: the evaluation is
+	// sharded in blocks of consecutive cases, this spreads the large random histories evenly
+	type gc struct {
+		kind string
+		ops  []hx.T
+		tags []string
+	}
+	var all []gc
+	generate(cfg, func(kind string, ops []hx.T, tags []string) { all = append(all, gc{kind, ops, tags}) })
+	stride := 3
+	if len(all) > 1500 {
+		stride = 1 + len(all)/500
+	}
+	for off := 0; off < stride; off++ {
+		for i := off; i < len(all); i += stride {
+			emit(all[i].kind, all[i].ops, all[i].tags)
+		}
+	}
 	return nil
 }
